@@ -84,7 +84,7 @@ def c13(tier, seed):
         jobs += [(kw, f"{i}/{n}", L, "") for i in range(n)]
     if tier == "quick":
         # the TAX clause of a DIVIDEND line needs 35 bytes: two obligations at a longer bound
-        jobs.append(("DIVIDEND", "0/1", 36, "letter-case,trailing-comment"))
+        jobs.append(("DIVIDEND", "0/1", 36, "letter-case,trailing-comment,trailing-comment-touching"))
 
     def run_kw(job):
         kw, part, Lj, only = job
@@ -255,7 +255,7 @@ def c13(tier, seed):
             "solver_chosen_lines_with_variants_through_real_parser": len(ex_pairs), "of_which_parsed_differently": len(ex_bad),
             "corrupted_three_line_texts_through_real_parser": len(err_recs), "of_which_not_rejected_on_the_corrupted_line_or_miscounted": len(err_bad),
             "functions_encoded": ["crates/cgt-core/src/parser.pest (every rule, read through pest_meta's own parser)", "match_nodes! arms of crates/cgt-core/src/parser.rs (pest_consume node matching)"],
-            "bounds": f"(DIVIDEND: letter case and trailing comment also at length <= 36 in the quick tier) all byte strings (bytes < 0x80) of length <= {L} that start with the date 2024-01-01, one of the keywords {kws} in any letter case and a blank, and contain no line break or '#'; related to a second string by one lexical edit: appended ' #x' comment, one more space/tab at a symbolic position, upper-casing, appended LF / CR / CRLF, a preceding full-line comment, a preceding blank line; and an appended stray ' @' must make it rejected",
+            "bounds": f"(DIVIDEND: letter case and trailing comment also at length <= 36 in the quick tier) all byte strings (bytes < 0x80) of length <= {L} that start with the date 2024-01-01, one of the keywords {kws} in any letter case and a blank, and contain no line break or '#'; related to a second string by one lexical edit: appended ' #x' comment (also '#x' touching the last token), one more space/tab at a symbolic position, upper-casing, appended LF / CR / CRLF, a preceding full-line comment, a preceding blank line; and an appended stray ' @' must make it rejected",
             "outside_claim": ["lines longer than the bound (ACCUMULATION/CAPRETURN need the thorough tier)", "dates other than the fixed literal", "bytes >= 0x80", "rejection of corrupted text with the error on the offending line is checked on concrete three-line texts built from solver-chosen lines (samples through the real parser, not a solver claim)", "semantic actions other than node matching (decimal/currency/date conversion)"],
             "solver": "z3 5.1 (QF_BV), one process per keyword", "solver_seconds": round(sum(o["s"] for r in results for o in r.get("obligations", [])), 1),
             "encode_seconds": [r.get("encode_s") for r in results],
